@@ -11,7 +11,7 @@ use boa_engine::object::{IntegrityLevel, ObjectInitializer};
 use boa_engine::property::{Attribute, PropertyDescriptor, PropertyKey};
 use boa_engine::value::Type;
 use boa_engine::{js_string, native_function::NativeFunction, Context, JsBigInt, JsError, JsValue, Source};
-use boa_engine::{JsArgs, JsData, JsResult};
+use boa_engine::{JsArgs, JsData, JsObject, JsResult};
 use boa_gc::{empty_trace, Finalize, Trace};
 use std::collections::HashMap;
 use std::ops::Deref;
@@ -144,6 +144,12 @@ impl ECMAScriptDatamodel {
     }
 
     pub fn js_to_data_value(value: &JsValue, ctx: &mut Context) -> Result<Data, String> {
+        Self::js_to_data_value_on_path(value, ctx, &mut Vec::new())
+    }
+
+    /// Converts a JS value, `path` holds the objects that are currently converted:
+    /// a cyclic (or absurdly deep) structure has no finite value and is rejected.
+    fn js_to_data_value_on_path(value: &JsValue, ctx: &mut Context, path: &mut Vec<JsObject>) -> Result<Data, String> {
         #[cfg(feature = "Debug")]
         debug!("js2d {:?} -> {:?}", value, value.get_type());
         match value.get_type() {
@@ -161,7 +167,11 @@ impl ECMAScriptDatamodel {
             },
             Type::Object => match value.to_object(ctx) {
                 Ok(obj) => {
-                    if obj.is_array() {
+                    if path.len() >= 64 || path.iter().any(|on_path| JsObject::equals(on_path, &obj)) {
+                        return Err("Can't convert a cyclic or too deeply nested object to Data".to_string());
+                    }
+                    path.push(obj.clone());
+                    let result = if obj.is_array() {
                         let ar = JsArray::from_object(obj.clone()).unwrap();
                         let len = ar.length(ctx).unwrap() as usize;
                         #[cfg(feature = "Debug")]
@@ -169,7 +179,7 @@ impl ECMAScriptDatamodel {
                         let mut dv = Vec::with_capacity(len);
                         for i in 0..len {
                             let v = ar.get(i, ctx).unwrap();
-                            if let Ok(av) = Self::js_to_data_value(&v, ctx) {
+                            if let Ok(av) = Self::js_to_data_value_on_path(&v, ctx, path) {
                                 dv.push(create_data_arc(av))
                             }
                         }
@@ -190,7 +200,7 @@ impl ECMAScriptDatamodel {
                             #[cfg(feature = "Debug")]
                             debug!("key '{}'", key);
                             let js = obj.get(key.clone(), ctx).unwrap();
-                            match Self::js_to_data_value(&js, ctx) {
+                            match Self::js_to_data_value_on_path(&js, ctx, path) {
                                 Err(err) => {
                                     warn!("{}", err)
                                 }
@@ -202,7 +212,9 @@ impl ECMAScriptDatamodel {
                         #[cfg(feature = "Debug")]
                         debug!("<< js2d object #{}", dvm.len());
                         Ok(Data::Map(dvm))
-                    }
+                    };
+                    path.pop();
+                    result
                 }
                 Err(err) => Err(format!("Can't converted '{:?}' to Data: {}", value, err)),
             },
